@@ -1,7 +1,7 @@
 #!/bin/bash
-# usage: ingest14.sh <PROP> [extra checks...] : takes /tmp/wt/<PROP>/out/m1 as seeded/<PROP>-w14m1, confirms it, runs the checks
+# usage: ingest14.sh <PROP> [extra checks...] : takes /tmp/wt/<PROP>/out/${M:-m1} as seeded/<PROP>-w14${M:-m1}, confirms it, runs the checks
 P=$1; shift
-D=/verif/seeded/$P-w14m1
-mkdir -p $D; cp /tmp/wt/$P/out/m1/patch.diff /tmp/wt/$P/out/m1/demo_test.go /tmp/wt/$P/out/m1/agent_meta.json $D/ || exit 2
+D=/verif/seeded/$P-w14${M:-m1}
+mkdir -p $D; cp /tmp/wt/$P/out/${M:-m1}/patch.diff /tmp/wt/$P/out/${M:-m1}/demo_test.go /tmp/wt/$P/out/${M:-m1}/agent_meta.json $D/ || exit 2
 /verif/tools/verify_seed.sh /tmp/wt/$P $D | tee $D/confirmation.txt
 /verif/tools/run_seed.sh $D/patch.diff $P "$@" | tee $D/first_run.txt
